@@ -105,4 +105,5 @@ DOCS = {
     "wildknown": (Wild, Wild(known=2, any=Base(x=3))),
     "unionmodels": (UnionModels, UnionModels(item=Textual(value="n/a"), items=[Numeric(value=1)])),
     "dup": (Dup, Dup(code=1, label="l", alt_code="0042")),
+    "anytyped": (AnyTyped, AnyTyped(v=5)),
 }
